@@ -44,8 +44,24 @@ func c11Denote(code string, base int, text string) (string, bool) {
 	return "", false
 }
 
+// c11DenoteMap: a key:value pair splits at the FIRST colon (no colon: the whole text is the key, the
+// value is empty); both parts must denote values of their types
+func c11DenoteMap(code, text string) (string, bool) {
+	kv := strings.Split(code[1:], ",")
+	key, val := text, ""
+	if i := strings.IndexByte(text, ':'); i >= 0 {
+		key, val = text[:i], text[i+1:]
+	}
+	k, ok1 := c11Denote(kv[0], 10, key)
+	v, ok2 := c11Denote(kv[1], 10, val)
+	return "map[" + k + ":" + v + "]", ok1 && ok2
+}
+
 func c11Text(c *Ctx, code string, base int) string {
 	r := c.Rng
+	if code[0] == 'M' {
+		return []string{"k:v", "k", "a:b:3", "home:http://example.org:8080/x", "k:", ":v", "a:b:c:d", "7:x", "x:7", "1:2:3", "12:30:00", "7:8", "", ":", "::"}[r.Intn(15)]
+	}
 	junk := []string{"", "abc", "1 2", " 5", "5 ", "1_000", "+", "-", "0x", "١٢"}
 	if r.Intn(6) == 0 {
 		return junk[r.Intn(len(junk))]
@@ -95,7 +111,7 @@ func c11Text(c *Ctx, code string, base int) string {
 
 func checkC11Values(c *Ctx, n int) {
 	r := c.Rng
-	codes := []string{"i8", "i16", "i32", "i64", "int", "u8", "u16", "u32", "u64", "uint", "f32", "f32", "f64", "dur", "str"}
+	codes := []string{"i8", "i16", "i32", "i64", "int", "u8", "u16", "u32", "u64", "uint", "f32", "f32", "f64", "dur", "str", "Mstr,str", "Mstr,int", "Mint,str"}
 	for i := 0; i < n; i++ {
 		code := codes[r.Intn(len(codes))]
 		base := 10
@@ -105,10 +121,13 @@ func checkC11Values(c *Ctx, n int) {
 			tags = append(tags, quoteTag("base", strconv.Itoa(base)))
 		}
 		wrap := []string{"", "", "L", "P"}[r.Intn(4)]
+		if code[0] == 'M' {
+			wrap = ""
+		}
 		source := []string{"cli", "cli", "cli", "env", "default"}[r.Intn(5)]
 		text := c11Text(c, code, base)
 		var choices []string
-		if r.Intn(3) == 0 {
+		if r.Intn(3) == 0 && code[0] != 'M' {
 			// 1-3 choices, all of them texts of the type; the text under test is one of them or not
 			for k := 1 + r.Intn(3); k > 0; k-- {
 				for try := 0; try < 20; try++ {
@@ -154,6 +173,9 @@ func checkC11Values(c *Ctx, n int) {
 		cs.Ops = []Op{{Kind: "parse", Args: argv}}
 		cs.Description = fmt.Sprintf("value %q for a %s option (base %d, choices %q) from %s: %s", text, wrap+code, base, choices, source, describeOps(cs))
 		want, denotes := c11Denote(code, base, text)
+		if code[0] == 'M' {
+			want, denotes = c11DenoteMap(code, text)
+		}
 		isChoice := len(choices) == 0
 		for _, ch := range choices {
 			if ch == text {
